@@ -30,7 +30,7 @@ def leaves(e: BaseException) -> list[BaseException]:
 
 HANDLERS = ("none", "true", "false", "retnone")
 PLACES = ("F", "deeper", "task", "service", "after")
-BODIES = ("ret", "raise", "forever", "instant")
+BODIES = ("ret", "raise", "forever", "instant", "ret-td")
 
 
 class C09(E1Check):
@@ -105,7 +105,7 @@ class C09(E1Check):
 
         log = env.log
         st = env.data["st"] = {"spawned": {}, "body_ended": set(), "waited": set(), "raised": {}, "handler_calls": [],
-                               "factory": None, "failed_spawns": set(), "hfail": [], "helpers": {}}
+                               "factory": None, "failed_spawns": set(), "hfail": [], "helpers": {}, "own_td_pending": set()}
         spawns = program["spawns"]
 
         def handler(exc: Exception) -> Any:
@@ -129,7 +129,7 @@ class C09(E1Check):
                     continue
                 got.add(byh.get(id(h), "unknown"))
             pending = set(st.get("pending_spawn", ()))
-            must = {i for i in st["spawned"] if i not in st["body_ended"]}
+            must = {i for i in st["spawned"] if i not in st["body_ended"] or i in st["own_td_pending"]}
             may = {i for i in st["spawned"] if i not in st["waited"]} | pending
             if "unknown" in got and not pending:
                 if exact:
@@ -155,8 +155,20 @@ class C09(E1Check):
                 snap = tuple(sorted(v.label for v in cur.get_resources(Res).values()))
                 log("body+", i, ok, snap)
                 check_handles(f"body {i} start", False)
+                if kind == "ret-td":
+                    # the task's own context needs time to tear down: the task has not finished before that
+                    st["own_td_pending"].add(i)
+
+                    async def own_td() -> None:
+                        try:
+                            await env.gate(f"owntd{i}")
+                        finally:
+                            st["own_td_pending"].discard(i)
+                            log("own-td-", i)
+
+                    cur.add_teardown_callback(own_td)
                 try:
-                    if kind == "ret":
+                    if kind in ("ret", "ret-td"):
                         await env.gate(f"body{i}")
                     elif kind == "raise":
                         await env.gate(f"body{i}")
@@ -179,7 +191,7 @@ class C09(E1Check):
         async def waiter(i: int, handle: Any) -> None:
             await handle.wait_finished()
             st["waited"].add(i)
-            log("waited", i, i in st["body_ended"])
+            log("waited", i, i in st["body_ended"] and i not in st["own_td_pending"])
             check_handles(f"waiter {i}", False)
 
         async def do_spawn(i: int, factory: Any, expect: dict) -> None:
@@ -206,7 +218,7 @@ class C09(E1Check):
             st["pending_spawn"].discard(i)
             log("spawned", i)
             htg.start_soon(waiter, i, h)
-            if s["body"] in ("forever", "ret") and s["how"] != "soon-cancel":
+            if s["body"] in ("forever", "ret", "ret-td") and s["how"] != "soon-cancel":
                 def cancel(i: int = i, h: Any = h) -> None:
                     log("cancel", i)
                     st.setdefault("cancelled", set()).add(i)
@@ -313,7 +325,7 @@ class C09(E1Check):
         unswallowed = [i for i, exc in st["raised"].items() if program["handler"] in ("none", "false", "retnone")]
         went_down = bool(unswallowed)
         root_left = next(i for i, ev in enumerate(tr) if ev[0] == "root-left")
-        late = [ev for ev in tr[root_left + 1:] if ev[0] in ("body+", "body-", "body!", "handler")]
+        late = [ev for ev in tr[root_left + 1:] if ev[0] in ("body+", "body-", "body!", "handler", "own-td-")]
         if late:
             fail("still-running", f"task events after the root block was left: {late[:3]}")
         # context of the tasks
@@ -329,7 +341,7 @@ class C09(E1Check):
             if w is None:
                 fail("wait", f"wait_finished() of task {i} never returned")
             elif w[2] is not True:
-                fail("wait", f"wait_finished() of task {i} returned before its body had ended")
+                fail("wait", f"wait_finished() of task {i} returned before the task (its body and its own context) had finished")
         # handler
         for i, exc in st["raised"].items():
             calls = [c for c in st["handler_calls"] if c is exc]
